@@ -15,6 +15,8 @@ pub struct Unit {
     pub first: usize,
     pub max_frags: usize,
     pub widths: Vec<usize>,
+    #[serde(default)]
+    pub styled: bool,
 }
 
 pub const FRAGS: [&str; 13] = ["word", "WwwwwwwwwwwwwwwwwwwwwwwwwwwwwwwwwwwwwwwwwwwwwwwwwwwwwwwwwwwwwwwwwwwwwwwwwwwwwwwwwwwwwwwwwwwwwwwwwwwwwwwwwwwwwwwwwwwwwwwwwW", " ", "\n", "\n\n", "\n ", "\n    codeline", "é", "日本語", "\t", "\u{a0}", "\u{1b}[1m", "--flag"];
@@ -34,8 +36,20 @@ fn long_name(n: usize) -> String {
 }
 
 /// the definition with `text` in the slot the skeleton exercises
+/// fragment separator of the styled mode: the text is a sequence of separately styled tokens
+/// (text, literal, emphasis, text, ..) instead of one plain string
+pub const SEP: char = '\u{1f}';
+
+fn spec(text: &str) -> DocSpec {
+    if !text.contains(SEP) {
+        return DocSpec::plain(text);
+    }
+    let stys = [Sty::Text, Sty::Lit, Sty::Em];
+    DocSpec(text.split(SEP).enumerate().map(|(i, f)| (stys[i % 3], f.to_string())).collect())
+}
+
 pub fn skeleton(k: usize, text: &str) -> Opts {
-    let d = DocSpec::plain(text);
+    let d = spec(text);
     let sw = |n: Names| P::Switch(n);
     let plain = P::Switch(Names::both('p', "plain").help("plain neighbour help"));
     let mut o = match k {
@@ -72,7 +86,7 @@ pub fn skeleton(k: usize, text: &str) -> Opts {
         // adjacent heading
         10 => Opts::new(P::Seq(vec![P::Adj(vec![P::ReqFlag(Names::long("point").help("adjacent flag help")), P::Pos { ty: Ty::Os, strict: Strict::Any, metavar: "X".into(), help: Some(d) }]).opt(), plain])),
         // many items: usage line wraps
-        11 => Opts::new(P::Seq(vec![sw(Names::long(&long_name(12)).help("one")), sw(Names::long(&(long_name(12) + "b")).help(text)), sw(Names::long(&(long_name(12) + "c"))), sw(Names::long(&(long_name(12) + "d"))), sw(Names::long(&(long_name(12) + "e"))), plain])),
+        11 => Opts::new(P::Seq(vec![sw(Names::long(&long_name(12)).help("one")), sw(Names { help: Some(d.clone()), ..Names::long(&(long_name(12) + "b")) }), sw(Names::long(&(long_name(12) + "c"))), sw(Names::long(&(long_name(12) + "d"))), sw(Names::long(&(long_name(12) + "e"))), plain])),
         _ => unreachable!(),
     };
     if k % 2 == 1 {
@@ -82,7 +96,7 @@ pub fn skeleton(k: usize, text: &str) -> Opts {
 }
 
 fn strip_ws(s: &str) -> String {
-    s.chars().filter(|c| !c.is_whitespace()).collect()
+    s.chars().filter(|c| !c.is_whitespace() && *c != SEP).collect()
 }
 
 /// cut a text at its first blank line, the way the short help is documented to do
@@ -202,7 +216,9 @@ pub fn check_text(unit: &Value, k: usize, text: &str, widths: &[usize], only_wid
     // (c) the short form contains exactly the first paragraph of each help text
     if only_width.is_none() || only_width == Some(0) {
         if let Some((d, full)) = help_doc(&p, &["--help"]) {
-            if !full {
+            // styled mode: a blank line that only exists across two tokens is not judged
+            let across = text.contains(SEP) && text.replace(SEP, "").matches("\n\n").count() != text.matches("\n\n").count();
+            if !full && !across {
                 let o2 = skeleton(k, first_par(text));
                 if let Ok(p2) = build_checked(&o2) {
                     if let Some((d2, _)) = help_doc(&p2, &["--help"]) {
@@ -230,14 +246,18 @@ pub fn check_text(unit: &Value, k: usize, text: &str, widths: &[usize], only_wid
 }
 
 /// all concatenations of 1..=n fragments starting with fragment `first`
-fn strings(first: usize, n: usize) -> Vec<String> {
+fn strings(first: usize, n: usize, styled: bool) -> Vec<String> {
     let mut out = vec![FRAGS[first].to_string()];
     let mut last = out.clone();
     for _ in 1..n {
         let mut next = vec![];
         for s in &last {
             for f in FRAGS {
-                next.push(format!("{}{}", s, f));
+                if styled {
+                    next.push(format!("{}{}{}", s, SEP, f));
+                } else {
+                    next.push(format!("{}{}", s, f));
+                }
             }
         }
         out.extend(next.iter().cloned());
@@ -261,7 +281,10 @@ impl Check for C13 {
         let mut out = vec![];
         for k in 0..SKELETONS {
             for first in 0..FRAGS.len() {
-                out.push(serde_json::to_value(Unit { skeleton: k, first, max_frags: tier.pick(3, 4), widths: widths.clone() }).unwrap());
+                out.push(serde_json::to_value(Unit { skeleton: k, first, max_frags: tier.pick(3, 4), widths: widths.clone(), styled: false }).unwrap());
+                // the same strings as separately styled tokens (text, literal, emphasis, ..)
+                let few: Vec<usize> = widths.iter().copied().filter(|w| *w <= 3 || *w % 7 == 5 || *w >= 120).collect();
+                out.push(serde_json::to_value(Unit { skeleton: k, first, max_frags: tier.pick(3, 4), widths: if tier == Tier::Quick { few } else { widths.clone() }, styled: true }).unwrap());
             }
         }
         out
@@ -269,7 +292,10 @@ impl Check for C13 {
     fn run_unit(&self, unit: &Value, ctx: &mut Ctx) {
         let u: Unit = serde_json::from_value(unit.clone()).unwrap();
         std::env::remove_var("BPAFMC_W");
-        for s in strings(u.first, u.max_frags) {
+        for s in strings(u.first, u.max_frags, u.styled) {
+            if u.styled && !s.contains(SEP) {
+                continue;
+            }
             check_text(unit, u.skeleton, &s, &u.widths, None, ctx);
         }
     }
@@ -283,7 +309,7 @@ impl Check for C13 {
         check_text(unit, k, &text, &u.widths, Some(w), ctx);
     }
     fn rule(&self) -> String {
-        "documents = help (and sub-command help, and an error message) of 12 layout skeletons (item help with term widths around the tab stop, descr, header+footer, group title, positional help, command help, env row + fallback suffix, adjacent heading, long usage line) with the text slot ranging over EVERY concatenation of <=3 (thorough 4) fragments from {word, 120-char word, space, newline, blank line, newline+space, code line, é, 日本語, tab, NBSP, ESC sequence, --flag}; each document rendered at every width (quick: 1..100, 120, 200, 300; thorough: 1..300) via the Display width and at 65535 as 'unwrapped'; (a) identical once whitespace is removed, (b) for widths >= 40 no line longer than width+2 unless what follows the indentation/term is a single unbreakable word or it is a code line, (c) monochrome(false) equals monochrome(true) of the same definition with the text cut at its first blank line; evaluation = one render; non-trivial = render at width > 1 satisfying (a),(b)".into()
+        "documents = help (and sub-command help, and an error message) of 12 layout skeletons (item help with term widths around the tab stop, descr, header+footer, group title, positional help, command help, env row + fallback suffix, adjacent heading, long usage line) with the text slot ranging over EVERY concatenation of <=3 (thorough 4) fragments from {word, 120-char word, space, newline, blank line, newline+space, code line, é, 日本語, tab, NBSP, ESC sequence, --flag}, as one plain string and as a sequence of separately styled tokens (text / literal / emphasis; quick: every seventh width); each document rendered at every width (quick: 1..100, 120, 200, 300; thorough: 1..300) via the Display width and at 65535 as 'unwrapped'; (a) identical once whitespace is removed, (b) for widths >= 40 no line longer than width+2 unless what follows the indentation/term is a single unbreakable word or it is a code line, (c) monochrome(false) equals monochrome(true) of the same definition with the text cut at its first blank line; evaluation = one render; non-trivial = render at width > 1 satisfying (a),(b)".into()
     }
     fn bounds(&self, tier: Tier) -> Value {
         json!({"fragments_per_string": tier.pick(3, 4), "widths": tier.pick("1..100, 120, 200, 300", "1..300"), "skeletons": 12})
